@@ -2,6 +2,7 @@
 EXTENDS AsmSizing
 CONSTANTS MaxN, Fillers, Consts        \* Consts: the constants written with a label (label+c,PCR), 0 = plain label
 ConstsC == {0, 4, -4, 126, -126, 200, -200}       \* (a cfg file cannot hold negative numbers: Consts <- ConstsC)
+ConstsT == {0, 1, -1, 4, -4, 125, -125, 126, -126, 127, -127, 128, -128}       \* thorough tier (91 items, 753,571 programs: below TLC's 1,000,000-element limit for the set of initial states)
 VARIABLES prog, st
 vars == <<prog, st>>
 Items(n) == {[k |-> "fix", sz |-> f, tgt |-> 0, base |-> 0, mx |-> f, c |-> 0] : f \in Fillers} \cup {[k |-> "fix", sz |-> 3, tgt |-> 0, base |-> 0, mx |-> 2, c |-> 0]}
